@@ -339,7 +339,7 @@ def _shard_sequences(shard: int, nshards: int, maxlen: int):
 
 def run(ctx: Ctx) -> None:
     sp = space()
-    res = bfs(sp, max_states=60000 if ctx.quick else 400000, max_depth=6 if ctx.quick else 40)
+    res = bfs(sp, max_states=60000 if ctx.quick else 400000, max_depth=6 if ctx.quick else 40, is_known=ctx.is_known)
     from vf.core.runner import merge_tallies, pmap_shards
     tseq = merge_tallies(pmap_shards(_shard_sequences, 64, 2 if ctx.quick else 3))
     for vj in tseq.violations:
